@@ -5,6 +5,7 @@ mod p_c02;
 mod p_c03;
 mod p_c04;
 mod p_c05;
+mod p_c07;
 mod p_c19;
 mod delivery;
 mod spec;
@@ -12,6 +13,7 @@ mod resp;
 mod respgen;
 mod rng;
 mod script;
+mod send;
 
 #[global_allocator]
 static GLOBAL: alloc::Counting = alloc::Counting;
@@ -76,6 +78,7 @@ fn main() {
                 "C03" => p_c03::generate(seed, tier, &mut sink),
                 "C04" => p_c04::generate(seed, tier, &mut sink),
                 "C05" => p_c05::generate(seed, tier, &mut sink),
+                "C07" => p_c07::generate(seed, tier, &mut sink),
                 "C19" => p_c19::generate(seed, tier, &mut sink),
                 _ => {
                     eprintln!("unknown property {}", prop);
